@@ -140,13 +140,15 @@ C14_SPEC = dict(
         "(identifier: scalar values without ASCII white space or '>'; description: no LF, no '>', no leading/trailing "
         "white space; counts: digit strings < 2^32, leading zeros allowed; every layout freedom of IoPrint.style; bytes "
         "without '>' before the first record, ASCII white space after the last)",
-        "UniPROBE round trip is PARTIAL (reader_roundtrip_uniprobe_partial): proved for frequency tokens of the form "
-        "digits+['.'digits*] (IoPrintU.wf_dec) on which the float oracle is defined, names without CR/LF that trim() "
-        "leaves unchanged and that do not look like a column line, rows passing FrequencyMatrix::new's tolerance "
-        "(binary32, Flocq); signs, exponents, nan/inf spellings and blank lines before the first record are covered by "
-        "the correspondence check only",
-        "the record list of the round-trip theorems is non-empty for the JASPAR formats (a file without any '>' whose "
-        "last byte is not white space yields one Err: documented behaviour of Reader::new)",
+        "UniPROBE round trip (reader_roundtrip_uniprobe) is proved for frequency tokens of nom's decimal float grammar "
+        "SIGN? (DIGITS ('.' DIGITS?)? | '.' DIGITS) ([eE] SIGN? DIGITS)? (IoPrintU.wf_dec) on which the float oracle is "
+        "defined, names without CR/LF that trim() leaves unchanged and that do not look like a column line, rows passing "
+        "FrequencyMatrix::new's tolerance (binary32, Flocq), any number of empty lines after each record; nan/inf "
+        "spellings (such rows never pass the tolerance test) and blank lines before the first record are covered by the "
+        "correspondence check only",
+        "the record list of the JASPAR round-trip theorems is non-empty; the empty list is reader_roundtrip_no_record "
+        "(a file of white space only reads as End; a file without any '>' whose last byte is not white space yields "
+        "one Err: documented behaviour of Reader::new)",
         "outside the claimed grammar (documented, each yields an Err, never a wrong record, except the last item): '>' "
         "inside a JASPAR description, blank lines between JASPAR records, trailing blanks on a JASPAR count line, a last "
         "JASPAR line without newline; a last UniPROBE column line without newline is dropped (record with that column "
